@@ -282,9 +282,15 @@ theorem step_DLW (w : World) (which : Nat) (bytes : Bytes) : Outcome (.DLW w whi
   have ns : ¬ (Call.DLW w which bytes).Stuck := not_stuck_of_calm rfl
   cases he : bytes.isEmpty with
   | true =>
-    refine .call (.DLF w which) ⟨?_, Rel.refl _, fun hs => absurd hs ns⟩
+    refine .call (.DLF (w.discDone which) which)
+      ⟨?_, by rcases discDone_cases w which with ⟨e, _⟩ | ⟨e, _⟩ <;> rw [e]
+              · exact Rel.refl _
+              · exact (Rel.refl w).handleDisconnect, fun hs => absurd hs ns⟩
       (fun m => by simp only [Call.run, doLocalWrite, he, if_true])
-    simp only [Call.rank]; omega
+    simp only [Call.rank]
+    rcases discDone_cases w which with ⟨e, h01⟩ | ⟨e, h0, _⟩
+    · rw [e]; split <;> omega
+    · rw [if_neg h0]; omega
   | false =>
     cases hio : w.ioWrite bytes with
     | mk w1 r =>
@@ -334,7 +340,7 @@ theorem step_DLF (w : World) (which : Nat) : Outcome (.DLF w which) := by
       · refine .call (.DCR { w1 with sess := w1.sess.clearPing }) ⟨?_, io.rel.of_eq rfl rfl rfl, fun hst => absurd hst ns⟩
           (fun m => by simp only [Call.run, doLocalFlush, hio, h0, if_true])
         have : wt { w1 with sess := w1.sess.clearPing } = wt w1 := rfl
-        simp only [Call.rank, this]; omega
+        simp only [Call.rank, this, h0, if_true]; omega
       · refine .done _ ?_ (fun m => by simp only [Call.run, doLocalFlush, hio, h0, if_false]; rfl)
         split
         · apply Final.finish (hs := ns); exact io.rel.of_eq rfl rfl rfl
